@@ -23,6 +23,7 @@ def dispatch (st : DState) (line : String) : DState × String :=
   | "mm" :: rest =>
     let (t, out) := mmStep st.mm rest obs
     ({ st with mm := t }, out)
+  | "img" :: _ => (st, "skip")
   | _ => (st, "bad-op")
 
 partial def loop (h : IO.FS.Stream) (out : IO.FS.Stream) (st : DState) : IO Unit := do
